@@ -13,6 +13,8 @@ import RV.Base.Proto
     set w s p o c              -> ok          (Graph.set)
     rmctx w c                  -> ok          (ConjunctiveGraph.remove_context)
     addf w s p o c (s p o)*    -> ok          (quad whose graph is a Graph of another store holding the listed triples)
+    parse w (s p o c)*         -> ok          (Graph.parse: UOp.parse)
+    upd-insert / upd-delete w (s p o c)*  | upd-delwhere w s p o c | upd-clear w c   -> ok   (SPARQL Update through Graph.update: UOp)
     bind w pfx ns ov           -> ok          (ov ∈ {0,1})
     pass w                     -> ok          (open / close / destroy / query)
     commit w | rollback w      -> ok
@@ -71,6 +73,15 @@ def DS.op (s : DS) (w : Bool) (o : XOp) : DS :=
 /-- a graph-level operation = the calls it makes, in order (both models) -/
 def DS.gop (s : DS) (w : Bool) (g : GOp) : DS :=
   g.expand.foldl (fun s o =>
+    let a := match o with
+      | .add q => s.abs.step (w, .add q)
+      | .remove p => s.abs.step (w, .remove p)
+      | _ => s.abs
+    { s.op w o with abs := a }) s
+
+/-- a parse / SPARQL Update request = the calls it makes given the content at that moment (both models) -/
+def DS.uop (s : DS) (w : Bool) (u : UOp) : DS :=
+  (u.expandAt s.m.cur).foldl (fun s o =>
     let a := match o with
       | .add q => s.abs.step (w, .add q)
       | .remove p => s.abs.step (w, .remove p)
@@ -143,6 +154,26 @@ def step (s : DS) : List String → DS × String
     match wsel? w, quad? a b c d, triples? r with
     | some w, some q, some ts => (s.gop w (.addForeign q ts), "ok")
     | _, _, _ => (s, "bad-op")
+  | "parse" :: w :: r =>
+    match wsel? w, quads? r with
+    | some w, some qs => (s.uop w (.parse qs), "ok")
+    | _, _ => (s, "bad-op")
+  | "upd-insert" :: w :: r =>
+    match wsel? w, quads? r with
+    | some w, some qs => (s.uop w (.insertData qs), "ok")
+    | _, _ => (s, "bad-op")
+  | "upd-delete" :: w :: r =>
+    match wsel? w, quads? r with
+    | some w, some qs => (s.uop w (.deleteData qs), "ok")
+    | _, _ => (s, "bad-op")
+  | ["upd-delwhere", w, a, b, c, d] =>
+    match wsel? w, pat? a b c d with
+    | some w, some p => (s.uop w (.deleteWhere p), "ok")
+    | _, _ => (s, "bad-op")
+  | ["upd-clear", w, g] =>
+    match wsel? w, g.toNat? with
+    | some w, some g => (s.uop w (.clear g), "ok")
+    | _, _ => (s, "bad-op")
   | ["bind", w, a, b, o] =>
     match wsel? w, a.toNat?, b.toNat?, wsel? o with
     | some w, some a, some b, some o => (s.op w (.bind a b o), "ok")
